@@ -1,5 +1,5 @@
 from concurrent.futures import Executor
-from threading import Thread, Lock
+from threading import Thread, Lock, current_thread
 from collections import namedtuple, deque
 from functools import partial
 import logging
@@ -166,6 +166,11 @@ class ThrottleExecutor(CanCustomizeBind, Executor):
                 self._thread.join(MAX_TIMEOUT)
 
     def _block_until_ready(self, throttle_val):
+        if current_thread() is self._thread:
+            # A submit from our own thread (from the done-callback of a future
+            # which resolved during the hand-over) must not wait for room in
+            # the queue: this thread is the only one making room.
+            return
         while self._block and not self._shutdown.is_shutdown:
             # Clear before checking the queue, so that a wake-up arriving
             # after the check is not lost.
